@@ -1,6 +1,6 @@
 PROPERTIES = ['C03', 'C02']
 BOUNDS = {
-    'quick': 'static_set<Tracked,CAP> and flat_set<Tracked, static_vector<Tracked,CAP>>: one operation from every size; static_set at capacity 2, flat_set at capacity 3 (copy+move keys, every size NA, second set / source block size NB in {0,1}); move-only and copy-only keys at capacity 2 from size 1; '
+    'quick': 'static_set<Tracked,CAP> and flat_set<Tracked, static_vector<Tracked,CAP>>: one operation from every size; static_set at capacity 2, flat_set at capacity 2 (copy+move keys, every size NA, second set / source block size NB in {0,1}); move-only and copy-only keys at capacity 2 from size 1; '
              ' key values symbolic (pre-state keys pairwise distinct), erase positions symbolic (case-split)',
     'thorough': 'static_set: copy+move keys at capacity 2 (every NB) and 3 (NB = 0), move-only and copy-only at capacity 2 (every NB); flat_set: copy+move keys at capacity 3 (every NB), '
                 'move-only and copy-only at capacity 3 (NB in {0,1}); keys with defaulted (trivial) assignment but user-provided constructors/destructor at capacity 2 (both sets, every NB); every size NA',
@@ -38,7 +38,7 @@ def queries(tier, prop='C03'):
     only_na = {}
     if tier == 'quick':
         grid = [('ss_', 0, 2, (0, 1)), ('ss_', 1, 2, (0, 1)), ('ss_', 2, 2, (0, 1)),
-                ('fs_', 0, 3, (0, 1)), ('fs_', 1, 2, (0, 1)), ('fs_', 2, 2, (0, 1))]
+                ('fs_', 0, 2, (0, 1)), ('fs_', 1, 2, (0, 1)), ('fs_', 2, 2, (0, 1))]   # flat_set capacity 3 is thorough-only (quick-tier budget)
         only_na = {1: (1,), 2: (1,)}   # quick: move-only and copy-only keys from the middle size only
     else:
         grid = [('ss_', 0, 2, (0, 1, 2)), ('ss_', 0, 3, (0,)), ('ss_', 1, 2, (0, 1, 2)), ('ss_', 2, 2, (0, 1, 2))]
@@ -64,6 +64,7 @@ def queries(tier, prop='C03'):
                     if base in KF_WHOLE and KF_WHOLE[base][1](na): q['kf_only'] = KF_WHOLE[base][0]
                     out.append(q)
     for q_ in out:
+        q_['solver'] = ['cadical', 'minisat']   # minisat is erratic on these obligations (seconds to > 240 s for the same query shape); cadical is steady
         q_['lazy_trace'] = True   # verdict first, counterexample trace only when an obligation fails (engine/runner.py)
         q_['cbmc_flags'] = ['--max-field-sensitivity-array-size', '256']   # the ledger (a 160-byte global) stays field-sensitive, so its contents are constants for symex
     return out
